@@ -50,12 +50,12 @@ PROPS = {
                 gen=parse_family('C08', 3000, 40000, maxlen=9), flavours=['c'],
                 rule='grammars with error rules, non-sentences <= 9 tokens, recovery_match 1..5, lookahead 0-2: the number of tokens the first callback reports ignored vs the minimum over all simple recoveries (back position with `. error` x forward skip) computed by brute force from the statement over the model sets',
                 assumptions=COMMON_ASSUME + ['recover_minimal is proved for the recovery model under r.ok (search finished within fuel); the oracle simpleRecoveryCosts is the property statement itself']),
-    'C09': dict(level='proof', theorem_modules=['C09', 'C09Lookahead', 'C01'], min_theorems=12, tags=['C09'], crash_counts=True,
+    'C09': dict(level='proof', theorem_modules=['C09', 'C09Lookahead', 'C01', 'BuildSet2'], min_theorems=12, tags=['C09'], crash_counts=True,
                 gen=lambda seed, tier: parse_family('C09', 2400, 30000)(seed, tier) + long_c09_cases(seed, tier) +
                                        gen.gen_parse_cases(seed + 5, 3000 if tier == 'thorough' else 500, 'C09', maxlen=9, kind='recov-cache', force=dict(rec=1)) +
                                        gen.gen_parse_cases(seed + 6, 1500 if tier == 'thorough' else 150, 'C09', maxlen=9, kind='stmt-list'), flavours=['c'],
                 rule='each input parsed at lookahead -3,0,1,2,7 and at several debug levels with otherwise identical flags: all observables (rc, callbacks, ambiguity flag, denoted tree set with costs) must be identical; goto-cache self-check hook on every parse',
-                assumptions=COMMON_ASSUME + ['verdict_indep_of_la01 / firstError_indep_of_la01 proved for levels 0/1; level 2 only through cross-level comparison']),
+                assumptions=COMMON_ASSUME + ['verdict_indep_of_la012 / firstError_indep_of_la012 cover all three levels (level 2: accepts2_iff_sentence); the level-2 set construction of the C code (contexts, the in-place context fixpoint of expand_new_start_set) is modelled step for step (Model/BuildSet2.lean) and proved to compute the level-2 set model (buildPLC2_eq_buildPL2, ctxLoop_least_fixpoint, ctxLoop_order_irrelevant, acceptsC_indep_of_la012)']),
     'C05': dict(level='proof', theorem_modules=['C05'], min_theorems=4, tags=['C05'], crash_counts=True,
                 gen=parse_family('C05', 3000, 40000), flavours=['c'],
                 rule='ambiguity flag vs number of derivations / distinct translations, one_parse in {0,1}',
@@ -77,7 +77,7 @@ PROPS = {
                                         gen.gen_big_symbol_cases(seed + 4, 40 if tier == 'thorough' else 6)), flavours=['c', 'cxx'],
                 rule='the case families of C01, C07, C14/C15 and C11 plus grammars with hundreds of symbols (C++ containers grow past their initial sizes) are run through libyaep and through class yaep (libyaep++); the two observation streams (return codes, messages, callbacks, flags, exported trees, free_tree traces, hook dumps) must be identical line by line, and both are judged against the same Lean model',
                 assumptions=COMMON_ASSUME + ['cxx_methods_forward is about the method bodies the translator extracts from yaep.cpp (regex-based, checked for one statement per method); that yaep.cpp includes yaep.c compiled as C++ and uses the C++ containers is covered by the stream comparison, not by a theorem']),
-    'C12': dict(level='exploration', theorem_modules=['C01', 'C19'], min_theorems=4, tags=['C12'], crash_counts=True,
+    'C12': dict(level='exploration', theorem_modules=['C01', 'C19', 'CodeTable'], min_theorems=4, tags=['C12'], crash_counts=True,
                 gen=lambda seed, tier: (gen.gen_hostile_cases(seed, 30000 if tier == 'thorough' else 2500) +
                                         gen.gen_parse_cases(seed + 1, 6000 if tier == 'thorough' else 400, 'C07', maxlen=9) +
                                         gen.gen_parse_cases(seed + 2, 6000 if tier == 'thorough' else 400, 'C04') +
@@ -98,7 +98,7 @@ PROPS = {
                 gen=lambda seed, tier: gen.gen_history_cases(seed, 12000 if tier == 'thorough' else 2400), flavours=['c'],
                 rule='random histories of <= 40 API calls over up to 3 live grammar objects (create, set, define good/defective, redefine, parse with sentences / non-sentences / invalid codes / NULL allocators, error queries, free_tree, free in any order); every return value, callback and tree is compared with the history-free model (a function of the object definition and settings only); library allocator accounting must be zero after all objects are freed',
                 assumptions=COMMON_ASSUME + ['the model is history-free by construction (Model/Api.lean); any deviation of any call is therefore a history dependence']),
-    'C15': dict(level='proof', theorem_modules=['C15', 'Generated'], min_theorems=12, tags=['C15'], crash_counts=True,
+    'C15': dict(level='proof', theorem_modules=['C15', 'Generated', 'CodeTable'], min_theorems=12, tags=['C15'], crash_counts=True,
                 gen=lambda seed, tier: gen.gen_history_cases(seed + 3, 12000 if tier == 'thorough' else 2400), flavours=['c'],
                 rule='the same histories: yaep_error_code / message after every call, return codes of yaep_parse for invalid token codes (below, between and above the declared codes), undefined grammars, NULL allocator with non-NULL free; previous values returned by all setters incl. out-of-range lookahead levels',
                 assumptions=COMMON_ASSUME),
@@ -109,7 +109,7 @@ PROPS = {
                              'which blocks the longjmp unwinding leaks is not judged (leaks are reported as statistics only); partial: memory effects are runtime truth (ASan)',
                              'Lean: Model/Api.lean + apiStep_local (other objects unaffected); the judge applies it to histories with injected failures'],
                 technique='exhaustive single-fault enumeration over allocation indices, judged by the Lean API model'),
-    'C18': dict(level='exploration', theorem_modules=['C18', 'BuildSet'], min_theorems=18, tags=['C18'], crash_counts=True, runner=None, flavours=['c'],
+    'C18': dict(level='exploration', theorem_modules=['C18', 'BuildSet', 'BuildSet2'], min_theorems=18, tags=['C18'], crash_counts=True, runner=None, flavours=['c'],
                 rule='left-recursive list, E/T/F arithmetic and the 200-rule ANSI C grammar of test41.c on the tokens of test/test.i (the repo lexer ansic.l), input lengths 1k..16k/32k (thorough: ..512k) doubling, lookahead 0,1,2: bytes requested from the allocator during yaep_parse, hash searches, unique situations / set cores / distance vectors / sets / triples must grow by at most a calibrated factor per doubling (bytes 2.6, searches 3.5, ...), at most 4 hash collisions per search, never more unique sets than tokens, goto-cache hits do not shrink; the same counters after make_parse in the all-parses and cost configurations; on random grammars and short inputs the numbers of unique set cores, distance vectors and sets equal those of the step-for-step Lean model of set_insert (identical sets are found again, not rebuilt); non-trivial = a (family, lookahead, n -> 2n) pair with both measurements',
                 assumptions=['measured, not proved: hash distribution, allocator behaviour and wall time are outside any model; thresholds calibrated on the unchanged tree with head-room',
                              'hash collisions are judged per search (<= 4 collisions per search + 1000): their growth at small sizes is table warm-up, not superlinear work'],
